@@ -14,7 +14,8 @@
 (***************************************************************************)
 EXTENDS Integers, Sequences, FiniteSets, TLC
 
-PrefixClasses == {"ok", "upper", "mixed", "empty", "toolong", "badchar"}
+\* "other": a different, perfectly valid prefix (the addresses of the message stay under the usual one)
+PrefixClasses == {"ok", "upper", "mixed", "empty", "toolong", "badchar", "other"}
 AddrClasses   == {"ok", "wrongprefix", "badchecksum", "notbech32", "upper", "empty"}
 OptAddrClasses == AddrClasses \cup {"none"}
 ListClasses   == {"ok", "empty", "dup", "onewrongprefix", "onebadchecksum", "dupcase"}
@@ -56,7 +57,11 @@ InstantiateMsgs == ValidSingles \cup UNION {{m \in PairsIn(s) : \A f \in DOMAIN 
 \* update messages: a subset of sections, at most one damaged field among the supplied ones
 MsgsFor(S) == {BaseMsg} \cup {One(f, c) : f \in UNION {Fields[s] : s \in S}, c \in UNION {ClassesOf(g) : g \in AllFields}}
 UpdateMsgs == UNION {{[sections |-> S, classes |-> m] : m \in MsgsFor(S)} : S \in SUBSET Sections}
+\* ... plus every pair (protocol prefix, oracle) - a prefix change goes through only when no address of its own
+\* section contradicts it, which is where the other sections' addresses must be re-checked against the NEW prefix
+ProtoPairs == {[BaseMsg EXCEPT !["p_prefix"] = c, !["p_oracle"] = d] : c \in PrefixClasses, d \in OptAddrClasses}
 ValidUpdateMsgs == {u \in UpdateMsgs : \A f \in DOMAIN u.classes : u.classes[f] \in ClassesOf(f)}
+                   \cup UNION {{[sections |-> S, classes |-> m] : m \in ProtoPairs} : S \in {T \in SUBSET Sections : "proto" \in T}}
 
 \* prediction used only for coverage statistics (the property does not demand acceptance):
 \* everything supplied is a good value
